@@ -73,6 +73,9 @@ const (
 	TgPrecompile
 	TgCodeless
 	TgSelf // CALL to the frame's own contract with empty calldata (the frame's code stops at once when called so)
+	// TgBadPrecompile is the pairing precompile (0x08, all scenario forks): it rejects every input whose length is
+	// not a multiple of 192 (the callee fails, all forwarded gas is gone) and answers 32 bytes to an empty input
+	TgBadPrecompile
 )
 
 type Frame struct {
@@ -101,6 +104,17 @@ type Scn struct {
 	Bound    uint32     `json:"bound"`  // bit i: frame i's contract has Aspects bound
 	NAspects int        `json:"n_asp"`  // Aspects per join point (1 or 2)
 	Frames   int        `json:"frames"` // number of frames
+	// Shared: every contract uses the same storage layout (same slots, same journal variable names) instead of
+	// slots and names of its own; values stay distinct per frame
+	Shared bool `json:"shared,omitempty"`
+}
+
+// Kid is the identity under which frame id's effect slots and journal names are derived.
+func (s *Scn) Kid(id int) int {
+	if s.Shared {
+		return 0
+	}
+	return id
 }
 
 // GenOpts selects the sub-language.
@@ -120,7 +134,11 @@ type GenOpts struct {
 }
 
 func (s *Scn) String() string {
-	return fmt.Sprintf("%s jp=%v bound=%b n=%d top(v=%d,in=%d) %s", s.Fork, s.JPOn, s.Bound, s.NAspects, s.TopValue, s.TopInLen, s.Root)
+	sh := ""
+	if s.Shared {
+		sh = " shared-layout"
+	}
+	return fmt.Sprintf("%s jp=%v bound=%b n=%d top(v=%d,in=%d)%s %s", s.Fork, s.JPOn, s.Bound, s.NAspects, s.TopValue, s.TopInLen, sh, s.Root)
 }
 
 func (f *Frame) String() string {
@@ -145,6 +163,8 @@ func (f *Frame) String() string {
 			out += ")->codeless "
 		case TgSelf:
 			out += ")->self "
+		case TgBadPrecompile:
+			out += ")->failing-precompile "
 		}
 	}
 	if f.Post != ENone {
@@ -217,6 +237,8 @@ func genFrame2(c *mc.Ctx, o *GenOpts, depth int, next *int, ownCtx, isInit bool)
 var (
 	Codeless   = gen.EOA
 	Precompile = common.BytesToAddress([]byte{4})
+	// BadPrecompile: see TgBadPrecompile
+	BadPrecompile = common.BytesToAddress([]byte{8})
 )
 
 func FrameAddr(id int) common.Address { return world.ContractAddr(100 + id) }
@@ -287,15 +309,15 @@ type compiled struct {
 	code []byte
 }
 
-func emitEffect(p *asm.P, e Effect, id, pos int) {
-	key, val := sKey(id, pos), sVal(id, pos)
+func emitEffect(p *asm.P, e Effect, id, kid, pos int) {
+	key, val := sKey(kid, pos), sVal(id, pos)
 	switch e {
 	case ESstore:
 		p.Push(val).Push(key).Op(asm.SSTORE)
 	case ELog:
 		p.Push(logTopic(id, pos)).Push(0).Push(0).Op(asm.LOG1)
 	case EJournal, EJournalAA, EJournalABA:
-		name := JournalName(id, pos)
+		name := JournalName(kid, pos)
 		for _, w := range gen.StrWords(0x200, []byte(name)) {
 			p.Push32(w.Word).Push(w.Off).Op(asm.MSTORE)
 		}
@@ -324,14 +346,18 @@ func emitEffect(p *asm.P, e Effect, id, pos int) {
 
 // compileFrame assembles the code of f. static tells whether the frame runs under write protection (the harness
 // plumbing that stores flags is omitted there); depth is the frame's call depth (root = 1).
-func compileFrame(f *Frame, fork world.Fork, static bool, depth int) []byte {
+func compileFrame(f *Frame, fork world.Fork, static bool, depth int, shared bool) []byte {
+	kid := f.ID
+	if shared {
+		kid = 0
+	}
 	p := asm.New()
 	p.Op(asm.JUMPDEST)
 	if f.Call != nil && f.Call.Target == TgSelf {
 		// called with empty calldata (by itself) the frame stops at once
 		p.Op(asm.CALLDATASIZE).Op(0x61, 0, 7).Op(asm.JUMPI, asm.STOP, asm.JUMPDEST)
 	}
-	emitEffect(p, f.Pre, f.ID, 1)
+	emitEffect(p, f.Pre, f.ID, kid, 1)
 	var initCode []byte
 	patchAt := -1
 	if c := f.Call; c != nil {
@@ -346,7 +372,7 @@ func compileFrame(f *Frame, fork world.Fork, static bool, depth int) []byte {
 		childStatic := static || c.Kind == KStaticCall
 		if c.Kind.IsCreate() {
 			if c.Child != nil {
-				initCode = compileFrame(c.Child, fork, static, depth+1)
+				initCode = compileFrame(c.Child, fork, static, depth+1, shared)
 			}
 			// CODECOPY(0x80, offset, len)
 			p.Push(uint64(len(initCode))).Op(0x61, 0, 0)
@@ -368,6 +394,8 @@ func compileFrame(f *Frame, fork world.Fork, static bool, depth int) []byte {
 				to = Codeless
 			case TgSelf:
 				to = FrameAddr(f.ID)
+			case TgBadPrecompile:
+				to = BadPrecompile
 			}
 			p.Push(32).Push(outOff).Push(uint64(c.InLen)).Push(0)
 			if c.Kind == KCall || c.Kind == KCallCode {
@@ -388,7 +416,7 @@ func compileFrame(f *Frame, fork world.Fork, static bool, depth int) []byte {
 			p.Push32(common.HexToHash("0xdeaddeaddeaddeaddeaddeaddeaddeaddeaddeaddeaddeaddeaddeaddeaddead")).Push(32).Op(asm.MSTORE)
 		}
 	}
-	emitEffect(p, f.Post, f.ID, 2)
+	emitEffect(p, f.Post, f.ID, kid, 2)
 	switch f.Term {
 	case TStop:
 		p.Op(asm.STOP)
@@ -442,7 +470,7 @@ func (s *Scn) Case() *world.Case {
 		if parent != nil && parent.Call.Kind.IsCreate() {
 			return // init code lives inside the creator
 		}
-		accounts = append(accounts, world.Account{Addr: FrameAddr(f.ID), Balance: world.Big(ContractBalance), Nonce: 1, Code: compileFrame(f, s.Fork, static, depth)})
+		accounts = append(accounts, world.Account{Addr: FrameAddr(f.ID), Balance: world.Big(ContractBalance), Nonce: 1, Code: compileFrame(f, s.Fork, static, depth, s.Shared)})
 	})
 	cs := &world.Case{Fork: s.Fork, ForkName: s.Fork.String(), Accounts: accounts, Entry: "call", From: world.Origin, To: FrameAddr(s.Root.ID),
 		Input: CallData(99, s.TopInLen), Gas: TopGas}
@@ -469,7 +497,7 @@ func (s *Scn) InitCode(f *Frame) []byte {
 	var out []byte
 	s.Walk(func(g *Frame, static bool, depth int, parent *Frame) {
 		if g == f.Call.Child {
-			out = compileFrame(g, s.Fork, static, depth)
+			out = compileFrame(g, s.Fork, static, depth, s.Shared)
 		}
 	})
 	return out
